@@ -563,3 +563,66 @@ def check_goals_text(ctx, module, cfg_text, goals, workers=2, timeout=300):
         ctx.notes.setdefault("reachability_goals", {})[g] = ok
         if not ok:
             raise ToolError("reachability goal %s of %s was not reached (vacuous model?)" % (g, module))
+
+
+# --------------------------------------------------------------------------- scheduled executions (C14-C16)
+IS_BEGIN = lambda l: '"e":"begin"' in l
+
+
+def scheduled_run(ctx, cmd, trace, extra_args=(), timeout=3000):
+    """Run a schedule-exploring driver (`vh <cmd>`), validate every distinct execution with TLC.
+    A deadlock found by the scheduler on the real code is a violation whose replay is the schedule."""
+    out = ctx.path(cmd + ".ndjson")
+    txt = vh(ctx, [cmd, "--tier", ctx.tier, "--seed", ctx.seed, "--out", out] + list(extra_args), timeout=timeout)
+    summ = json.loads([l for l in txt.splitlines() if l.startswith("{")][-1])["summary"]
+    ctx.notes.setdefault("schedule_exploration", []).extend(summ)
+    ctx.behaviours += sum(s["executions"] for s in summ)
+    for s in summ:
+        for v in s["verdicts"]:
+            if v["kind"] == "stuck":
+                raise ToolError("scheduler: %s" % v["msg"])
+            k = None
+            for kf in load_known(ctx.prop):
+                m = kf.get("match", {})
+                if m and m.get("scenario") == s["scenario"] and m.get("kind") == v["kind"]:
+                    k = kf["what"]
+            if k:
+                if k not in ctx.known:
+                    ctx.known.append(k)
+                continue
+            report_violation(ctx, "%s in scenario %s: %s" % (v["kind"], s["scenario"], v.get("waiting") or v.get("msg")),
+                             [json.dumps({"e": "begin", "scn": s["scenario"], "sched": v["sched"], "verdict": v})])
+    rej = validate_traces(ctx, trace[0], trace[1], out, cmd, is_reset=IS_BEGIN, max_rejects=20) if os.path.getsize(out) else []
+    for s in first_lines(out, 6):
+        add_sample(ctx, "event_of_scheduled_execution", s)
+    for r in rej:
+        k = match_known(ctx, r)
+        if k:
+            if k not in ctx.known:
+                ctx.known.append(k)
+            continue
+        bad = r["history"][r["at"] - 1] if 0 < r["at"] <= len(r["history"]) else ""
+        report_violation(ctx, "%s at event %s: %s" % (r["why"], r["at"], bad[:300]), r["history"])
+    return summ
+
+
+def scheduled_replay(ctx, cmd, trace, path):
+    build_harness(ctx)
+    first = json.loads(open(path).readline())
+    scn = first.get("scn") or first.get("scenario")
+    plan = ",".join(str(x) for x in first["sched"])
+    out = ctx.path("re.ndjson")
+    txt = vh(ctx, [cmd, "--scenario", scn, "--plan", plan, "--out", out])
+    summ = json.loads([l for l in txt.splitlines() if l.startswith("{")][-1])["summary"]
+    bad = False
+    for s in summ:
+        for v in s["verdicts"]:
+            bad = True
+            report_violation(ctx, "%s in scenario %s: %s" % (v["kind"], s["scenario"], v.get("waiting")),
+                             [open(path).readline().strip()], name="again-" + os.path.basename(path))
+    rej = validate_traces(ctx, trace[0], trace[1], out, "re", is_reset=IS_BEGIN) if os.path.getsize(out) else []
+    for r in rej:
+        bad = True
+        report_violation(ctx, r["why"], r["history"], name="again-" + os.path.basename(path))
+    if not bad:
+        ctx.log("the replayed schedule is accepted by the specification on this tree")
